@@ -190,6 +190,11 @@ fn settings_menu(dst: u8, rich: bool) -> Vec<Setting> {
         Setting::mods(ModSpec::Classic(None)),
         Setting { rate: Some(1.2), od: Some((9.1, false)), ..Setting::nm() },
     ];
+    // mods that switch skills or formulas off
+    v.push(Setting::bits(settings::RX));
+    if dst == 0 {
+        v.push(Setting::bits(settings::AP));
+    }
     if dst == 3 {
         v.push(Setting::mods(ModSpec::HoIn(None)));
         v.push(Setting::mods(ModSpec::Invert));
